@@ -43,8 +43,14 @@ PARTIAL = [
     "by the dense oracle only; the Lean theorems speak about structure, leg labels and shapes",
     "QR / SVD factorisation contracts (Q.R = M, U.S.Vh = M untruncated) are external; validated on every live "
     "split by the dense comparison",
-    "insert_identity, change_node_identifier, replace_tensor and the TensorDict access are covered at the TTN "
-    "level by correspondence + oracle; their Node-level parts (replace_tensor, _reset_permutation) are proved",
+    "proved: Node-machine invariant and one spec per Node method; leg order / children / parent / well-formedness "
+    "of the node built by contract_nodes (both argument orders) and of both nodes built by split_nodes (all six "
+    "parent/root configurations). NOT proved: graph-level invariants of the TTN model (one root, symmetric links, "
+    "equal key sets, facing bond labels) through replace_node_in_neighbours / replace_node_in_some_neighbours, and "
+    "their preservation over arbitrary operation lists (ops_preserve_wf); these are covered by the exact "
+    "correspondence after every operation plus dense.well_formed on the implementation",
+    "insert_identity, change_node_identifier, replace_tensor and the TensorDict access are modelled and "
+    "corresponded at the TTN level; only their Node-level parts (replace_tensor, _reset_permutation) are proved",
     "child order after split_nodes / insert_identity is not documented: compared with the model "
     "(correspondence), not demanded by the oracle",
     "behaviour on inadmissible arguments is only sampled by the malformed stream (must raise; network "
@@ -1343,13 +1349,13 @@ def run_case(ctx, case, model_out=None):
 def gen_cases(ctx) -> List[Dict[str, Any]]:
     rng = ctx.rng
     cases = []
-    nh = ctx.n(60, 600)
+    nh = ctx.n(1200, 1500)
     maxops = 30 if ctx.tier == "quick" else 200
     for _ in range(nh):
         n = rng.choice([1, 2, 3, 3, 4, 4, 5, 5, 6, 6, 7, 8])
         nops = rng.choice([maxops, maxops, rng.randint(3, maxops)])
         cases.append({"kind": "hist", "seed": rng.randrange(10 ** 9), "n": n, "nops": nops})
-    for _ in range(ctx.n(400, 6000)):
+    for _ in range(ctx.n(3000, 10000)):
         cases.append({"kind": "nodeseq", "seed": rng.randrange(10 ** 9), "nops": rng.randint(2, 25)})
     return cases
 
